@@ -127,14 +127,18 @@ def c14_checks(cfg, rr, seed):
     ]
     c = dict(cfg)
     c["mode"] = "real"
-    A = runner.execute_run(dict(c), recipes=copy.deepcopy([reseed] + P), stop_on_taint=False)
+    # the configuration the program runs under is part of the program: both twins start P with the
+    # contraction flag of the run configuration, whatever the earlier activity left behind
+    restore = {"do": "config", "contraction": bool(cfg.get("contraction", True)), "client": 0, "sid": 10**6 + 9}
+    reseed = [restore, reseed]
+    A = runner.execute_run(dict(c), recipes=copy.deepcopy(reseed + P), stop_on_taint=False)
     ka = list(A.sampler_keys)
-    B = runner.execute_run(dict(c, lib_seed=c.get("lib_seed", 1) + 17), recipes=copy.deepcopy(others + junk + [reseed] + P), stop_on_taint=False)
+    B = runner.execute_run(dict(c, lib_seed=c.get("lib_seed", 1) + 17), recipes=copy.deepcopy(others + junk + reseed + P), stop_on_taint=False)
     n = A.steps + B.steps
     pa = [e for e in A.events if e["sid"] < 10**6]
     pb = [e for e in B.events if e["sid"] < 10**6 and any(r["sid"] == e["sid"] for r in P)]
-    da = [(e["sid"], e["st"], e["ret"] if e["do"] in ("measure", "povm") else None) for e in pa]
-    db = [(e["sid"], e["st"], e["ret"] if e["do"] in ("measure", "povm") else None) for e in pb]
+    da = [(e["sid"], e["st"], e["ret"]) for e in pa if e["do"] in ("measure", "povm")]
+    db = [(e["sid"], e["st"], e["ret"]) for e in pb if e["do"] in ("measure", "povm")]
     if da != db:
         k = next((i for i, (x, y) in enumerate(zip(da, db)) if x != y), min(len(da), len(db)))
         out.append(
